@@ -84,6 +84,12 @@ func (w *Proxy) creditTicker(e *peers.H2End) {
 
 func (w *Proxy) newH2Upstream(host string) *peers.H2Upstream {
 	o := w.h2UpOpts
+	if w.P.H2Stingy {
+		// an upstream that stops reading: a window of 1000 bytes per stream and never any credit. A request
+		// whose body does not fit can never be sent completely; the configured timeout must end it
+		o.InitWin, o.ConnExtra, o.Eager, o.NoCredit = 1000, 0, false, true
+		w.S.Fault("w:h2_upstream_grants_no_credit")
+	}
 	u := peers.NewH2Upstream(w.S, w.H, host, o)
 	w.S.Logf("h2 upstream %s opts %+v", host, o)
 	u.Viol = w.h2Viol
